@@ -31,15 +31,16 @@ var expectedPkgs = []string{
 
 // Program is the type-checked program of the repository under analysis.
 type Program struct {
-	Dir   string
-	Arch  string
-	Fset  *token.FileSet
-	All   []*packages.Package          // every package incl. dependencies
-	Pkgs  map[string]*packages.Package // module packages by short name ("message")
-	ssa   *ssa.Program
-	ssaPk map[string]*ssa.Package
-	cgVTA *callgraph.Graph
-	cgCHA *callgraph.Graph
+	Dir       string
+	Arch      string
+	Fset      *token.FileSet
+	All       []*packages.Package          // every package incl. dependencies
+	Pkgs      map[string]*packages.Package // module packages by short name ("message")
+	ssa       *ssa.Program
+	sentinels map[*types.Var]bool
+	ssaPk     map[string]*ssa.Package
+	cgVTA     *callgraph.Graph
+	cgCHA     *callgraph.Graph
 
 	funcDecls map[*types.Func]*ast.FuncDecl
 	declPkg   map[*types.Func]*packages.Package
